@@ -1,4 +1,4 @@
-package main
+package main_test
 
 // C07 — biases compose with every method and keep the working data coherent.
 
